@@ -477,7 +477,7 @@ def first_limit():
     return 300 if HANG.get("tier", "quick") == "quick" else 1200
 
 
-def run_stream(exe_cmd, cases, tmp, tag, env=None, timeout=None):
+def run_stream(exe_cmd, cases, tmp, tag, env=None, timeout=None, first_limit_min=0):
     """Run cases through a line-protocol executable.  A crash is attributed to the case that was
     running; the remaining cases are run in a fresh process.  Returns (outputs, crashes)
     where outputs[i] = list of lines, crashes[i] = stderr excerpt.
@@ -496,7 +496,9 @@ def run_stream(exe_cmd, cases, tmp, tag, env=None, timeout=None):
         rounds += 1
         inp = os.path.join(tmp, "%s-%d.in" % (tag, rounds))
         write_cases(inp, cases[start:], base=start)
-        tmo = timeout or HANG.get("limit") or (first_limit() if HANG["seen"] == 0 else 60)
+        # first_limit_min: a component whose cases are known to run for minutes (C11 drbgbig) asks for at least that much
+        # before the first timeout of the run, in the quick tier as well
+        tmo = timeout or HANG.get("limit") or (max(first_limit(), first_limit_min) if HANG["seen"] == 0 else 60)
         # stdout/stderr go to files with a size limit (RLIMIT_FSIZE): code that loops while printing must not be able to
         # exhaust the machine's memory through our pipes
         outp, errp = inp + ".out", inp + ".err"
@@ -730,12 +732,14 @@ def run_cases(ctx, comp, exe, cases, count=True):
         if impl_per_case:
             io, ic = {}, {}
             for i, case in enumerate(sh):
-                o1, c1 = run_stream([exe] + list(comp.impl_cmd_extra), [case], ctx.tmp, "%si%d" % (tag, i), env=env)
+                o1, c1 = run_stream([exe] + list(comp.impl_cmd_extra), [case], ctx.tmp, "%si%d" % (tag, i), env=env,
+                                    first_limit_min=getattr(comp, "first_limit_min", 0))
                 io[i] = o1.get(0, [])
                 if 0 in c1:
                     ic[i] = c1[0]
         else:
-            io, ic = run_stream([exe] + list(comp.impl_cmd_extra), sh, ctx.tmp, tag + "i", env=env)
+            io, ic = run_stream([exe] + list(comp.impl_cmd_extra), sh, ctx.tmp, tag + "i", env=env,
+                                first_limit_min=getattr(comp, "first_limit_min", 0))
         mo, mc = run_stream([PMODEL] + list(comp.pmodel_args), sh, ctx.tmp, tag + "m")
         vo = None
         if comp.monitor_args:
